@@ -149,9 +149,14 @@ def monotonicity_oracle(ctx, named_calc):
                 w = np.linalg.eigvalsh(0.5 * (diff + diff.T))
                 cond = math.exp(min(amt, 40.0)) if which != 'eneT2' else 1.0     # conditioning of a very fast omega0/omega1 class
                 # exchange rates 1e9 times the others: results carry roundoff of a few 1e-17 x that ratio (finding F31)
-                if w.min() < -(1e-7 + 1e-15 * cond + 1e-14 * ratio2) * sc:
+                r2 = ratio2
+                if which == 'eneT2':
+                    r2 = max(ratio2, float(np.max(d1['preT2'] * np.exp(-d1['eneT2'])) / np.min(d1['preT0'] * np.exp(-d1['eneT0']))))
+                    if r2 < 1e6: r2 = 0.0
+                extreme = r2 >= 1e13      # beyond this ratio crystals with inequivalent-site exchange lose all precision (finding F31)
+                if w.min() < -(1e-7 + 1e-15 * cond + 1e-14 * min(r2, 1e13)) * sc:
                     os_tag = 'originstates' if len(calc.OSindices) > 0 else 'no-originstates'
-                    ctx.violation('vacancy-decreases:%s:%s:%s:%s' % (lab, os_tag, which, name),
+                    ctx.violation('vacancy-decreases:%s:%s:%s:%s%s' % (lab, os_tag, which, name, ':om2ratio-ge1e13' if extreme else ''),
                                   '%s decreased (min eigenvalue of change %.3g, scale %.3g) when %s[%d] was lowered by %g on %s'
                                   % (lab, w.min(), sc, which, j, amt, name),
                                   dict(calculator=name, data=jsonable(d), lowered=[which, j, amt], large_om2=large,
